@@ -695,12 +695,18 @@ func (s *IPSets) resyncIPSet(ipSetName string) error {
 				s.logCxt.Debugf("Parsing line: %q", line)
 			}
 			if strings.HasPrefix(line, "Name:") {
+				if !strings.Contains(line, " ") {
+					return fmt.Errorf("failed to parse ipset list Name line (truncated?). line: '%v'", line)
+				}
 				ipSetName = strings.Split(line, " ")[1]
 				if debug {
 					s.logCxt.WithField("setName", ipSetName).Debug("Parsing IP set.")
 				}
 			}
 			if strings.HasPrefix(line, "Type:") {
+				if !strings.Contains(line, " ") {
+					return fmt.Errorf("failed to parse ipset list Type line (truncated?). line: '%v'", line)
+				}
 				ipSetType = IPSetType(strings.Split(line, " ")[1])
 				if debug {
 					s.logCxt.WithField("type", ipSetType).Debug("Parsed type of IP set.")
